@@ -15,6 +15,7 @@ pub enum X {
     /// re-deliver an earlier genuine datagram of a peer to the victim (late duplicate / replay)
     ReplayOld { pick: u32 },
     Idle,
+    Crash { node: usize },
 }
 
 pub fn run_ttl(ctx: &mut Ctx) {
@@ -22,6 +23,11 @@ pub fn run_ttl(ctx: &mut Ctx) {
 }
 pub fn run_capacity(ctx: &mut Ctx) {
     block_on(ctx, |ctx| Box::pin(capacity_async(ctx)));
+}
+/// Capacity and expiry together: a full cache in which one session expires (its peer possibly gone and
+/// possibly looked up once more after expiry) must drop that one, not a live one, when a new peer arrives.
+pub fn run_capacity_expiry(ctx: &mut Ctx) {
+    block_on(ctx, |ctx| Box::pin(capacity_expiry_async(ctx)));
 }
 
 /// Which of `node`'s sessions (index into the key log) does this datagram belong to?
@@ -156,7 +162,7 @@ async fn ttl_async(ctx: &mut Ctx) {
                         w.deliver(0, r.src, r.bytes.clone(), Origin::Mutated { wire: wi, how: "replay" });
                     }
                 }
-                X::Idle => {}
+                X::Idle | X::Crash { .. } => {}
             },
             Obs::Out { node, ev } => {
                 let t = now_ms();
@@ -245,6 +251,89 @@ fn use_session(ctx: &mut Ctx, w: &HWorld<X>, last_used: &mut BTreeMap<[u8; 32], 
     ctx.ev(format!("t={t} victim session #{s} used ({what})"));
 }
 
+async fn capacity_expiry_async(ctx: &mut Ctx) {
+    let capacity = 2 + ctx.tape.choose(3) as usize;
+    let timeout_ms = *ctx.tape.pick(&[20_000u64, 60_000]);
+    let np = capacity + 1;
+    let mut w: HWorld<X> = HWorld::new(u64::MAX / 4);
+    for i in 0..=np {
+        let mut c = NodeCfg::new(8 + i);
+        c.request_timeout_ms = 500;
+        if i == 0 {
+            c.session_capacity = capacity;
+            c.session_timeout_ms = timeout_ms;
+        }
+        w.add_node(c).await;
+    }
+    // phase 1: fill the cache with peers 1..=capacity in a tape-chosen order
+    let mut fill: Vec<usize> = (1..=capacity).collect();
+    for i in (1..fill.len()).rev() {
+        let j = ctx.tape.choose(i as u32 + 1) as usize;
+        fill.swap(i, j);
+    }
+    let mut at = 0u64;
+    for p in &fill {
+        let inbound = ctx.tape.choose(3) == 0;
+        let (node, q) = if inbound { (*p, 0) } else { (0, *p) };
+        w.schedule(at, Ev::Custom(X::Submit { node, peer: q }));
+        at += 800;
+    }
+    // the peer whose session is left to expire; it may disappear, and the victim may look it up again afterwards
+    let dead = 1 + ctx.tape.choose(capacity as u32) as usize;
+    let crashes = ctx.tape.choose(3) != 0;
+    let looked_up_after_expiry = ctx.tape.choose(3) != 0;
+    if crashes {
+        w.schedule(at, Ev::Custom(X::Crash { node: dead }));
+    }
+    // phase 2: the others are kept in use (every timeout/3) until the idle one is well past its timeout
+    let keep: Vec<usize> = fill.iter().copied().filter(|p| *p != dead).collect();
+    let mut order: Vec<usize> = keep.clone();
+    let rounds = 4;
+    for _ in 0..rounds {
+        at += timeout_ms / 3;
+        let mut t = at;
+        for p in &keep {
+            w.schedule(t, Ev::Custom(X::Submit { node: 0, peer: *p }));
+            order.push(*p);
+            t += 700;
+        }
+        at = t;
+    }
+    if looked_up_after_expiry {
+        ctx.fault("expired_session_looked_up");
+        w.schedule(at + 100, Ev::Custom(X::Submit { node: 0, peer: dead }));
+        if !crashes {
+            // the peer is there: a fresh handshake completes and its new session is the most recent one
+            order.push(dead);
+        }
+        at += 1500;
+    }
+    // phase 3: a new peer arrives at the full cache
+    let newcomer = np;
+    let inbound = ctx.tape.choose(2) == 0;
+    let (node, q) = if inbound { (newcomer, 0) } else { (0, newcomer) };
+    w.schedule(at + 200, Ev::Custom(X::Submit { node, peer: q }));
+    order.push(newcomer);
+    at += 1200;
+    let mut mru: Vec<usize> = vec![];
+    for p in order.iter().rev() {
+        if !mru.contains(p) {
+            mru.push(*p);
+        }
+    }
+    ctx.ev(format!("cfg capacity={capacity} session_timeout={timeout_ms}ms fill={fill:?} idle_peer=n{dead} crashes={crashes} looked_up_after_expiry={looked_up_after_expiry} mru={mru:?}"));
+    ctx.fault("session_expires_in_full_cache");
+    if crashes {
+        ctx.fault("peer_crash");
+    }
+    let probe_start = at + 500;
+    for (k, p) in mru.iter().enumerate() {
+        w.schedule(probe_start + 800 * k as u64, Ev::Custom(X::Submit { node: 0, peer: *p }));
+    }
+    w.horizon_ms = probe_start + 800 * mru.len() as u64 + 2000;
+    capacity_loop(ctx, w, capacity, probe_start).await;
+}
+
 async fn capacity_async(ctx: &mut Ctx) {
     let capacity = 1 + ctx.tape.choose(5) as usize;
     let np = 2 + ctx.tape.choose(6) as usize;
@@ -295,6 +384,10 @@ async fn capacity_async(ctx: &mut Ctx) {
         w.schedule(probe_start + 800 * k as u64, Ev::Custom(X::Submit { node: 0, peer: *p }));
     }
     w.horizon_ms = probe_start + 800 * mru.len() as u64 + 2000;
+    capacity_loop(ctx, w, capacity, probe_start).await;
+}
+
+async fn capacity_loop(ctx: &mut Ctx, mut w: HWorld<X>, capacity: usize, probe_start: u64) {
     let mut next_rid = 1u64;
     let mut probing: Option<(usize, usize)> = None; // (rank, peer)
     let mut probe_rank = 0usize;
@@ -327,10 +420,19 @@ async fn capacity_async(ctx: &mut Ctx) {
                 w.route(ctx, wi);
             }
             Obs::Sched(Ev::Deliver { to, src, bytes, origin }) => {
-                w.deliver(to, src, bytes, origin);
+                if w.nodes[to].alive {
+                    w.deliver(to, src, bytes, origin);
+                }
             }
             Obs::Sched(Ev::Custom(x)) => match x {
+                X::Crash { node } => {
+                    ctx.ev(format!("t={} CRASH n{node}", now_ms()));
+                    w.crash(node);
+                }
                 X::Submit { node, peer } => {
+                    if !w.nodes[node].alive {
+                        continue;
+                    }
                     let id = next_rid;
                     next_rid += 1;
                     if now_ms() >= probe_start && node == 0 {
